@@ -23,6 +23,14 @@ def documentedExempt : List (List Char) :=
   [['/', 'h', 'e', 'a', 'l', 't', 'h'], ['/', 'h', 'e', 'a', 'l', 't', 'h', 'z'], ['/', 'r', 'e', 'a', 'd', 'y'], ['/'],
    ['/', 'l', 'o', 'g', 'o', '.', 'p', 'n', 'g']]
 
+/-! The request type `Req` IS the set of things the 401 decision may look at: the escaped path, whether
+the method is CONNECT (routing only), the value of the Authorization header and the `token` query
+parameter.  The method itself and every other request header (Origin, Access-Control-Request-*,
+Upgrade / Connection, X-Forwarded-*, X-Original-URL, X-HTTP-Method-Override, Proxy-Authorization,
+Cookie, …) are not arguments of `serve`: by construction they cannot influence the answer.  The
+`reqh` ops tie that to the code — the same request with each header set of a fixed pool, for every
+protected path and every method, must get the model's answer (401 before the mux without a token). -/
+
 /-- Token configured, path not exempt, no valid token (header or query) ⇒ 401 and no handler at
     all (the mux is never consulted), for every method, path spelling and flag combination. -/
 theorem C24_401 (valid : List Char → Bool) (f : Flags) (r : Req)
